@@ -134,6 +134,18 @@ func (c Int) LogSub(a, b ConstScalar, t Scalar) Scalar {
     c.Set(a)
     return c
   }
+  if a.GetFloat64() - b.GetFloat64() < math.Ln2 {
+    // 1 - exp(b-a) cancels for b close to a, use
+    //   log(exp(a) - exp(b)) = a - t + log(2 sinh(t)),  t = (a-b)/2
+    t.Sub(a, b)
+    t.Div(t, ConstInt(2.0))
+    c.Sub(a, t)
+    t.Sinh(t)
+    t.Log(t)
+    c.Add(c, t)
+    c.Add(c, ConstFloat64(math.Ln2))
+    return c
+  }
   //   log(exp(a) - exp(b))
   // = log(1 - exp(b-a)) + a
   t.Sub(b, a)
